@@ -385,6 +385,9 @@ def run_property(prop, tier, seed, replay=None, max_seconds=None):
                         traceback.print_exc()
                         ms = [Mismatch(stream="compare-crash", case=case, impl=jsonable(obs), model=repr(e))]
                     mismatches.extend(ms)
+            if hasattr(prop, "drain_failures"):
+                # failures established with the help of the driver (Lean spec oracle on impl outputs)
+                failures.extend(prop.drain_failures())
             batch = []
 
         for case in case_iter:
@@ -429,7 +432,11 @@ def run_property(prop, tier, seed, replay=None, max_seconds=None):
 
     # 5. when something broke and no failing input yet: extended search
     searched_more = 0
-    if (broken or mismatches) and not failures and not replay:
+    _open_ids = {f["id"] for f in load_findings().get("open", []) if f["property"] == pid}
+
+    def _unknown(fl):
+        return [f for f in fl if f.get("finding") not in _open_ids]
+    if (broken or mismatches) and not _unknown(failures) and not replay:
         # mismatching cases are the first candidates: the model satisfies the spec by theorem, so a
         # mismatch on a spec-determined observable is evaluated by prop.judge_mismatch if present
         if hasattr(prop, "judge_mismatch"):
@@ -437,7 +444,7 @@ def run_property(prop, tier, seed, replay=None, max_seconds=None):
                 f = prop.judge_mismatch(m)
                 if f:
                     failures.append(f)
-        if not failures:
+        if not _unknown(failures):
             rng2 = random.Random("%s-%s-search" % (pid, seed))
             st2 = explore(prop.extra_search(rng2, ctx), 240 if tier == "quick" else 1200)
             searched_more = st2["n"]
